@@ -251,11 +251,20 @@ type NXActionConnTrack struct {
 }
 
 func (a *NXActionConnTrack) Len() (n uint16) {
+	// A nested action may have grown since AddAction counted it (NAT ranges set, or
+	// actions added to a nested ct action, afterwards): count the actions as they are now.
+	if len(a.actions) > 0 {
+		n = a.NXActionHeader.Len() + 14
+		for _, act := range a.actions {
+			n += act.Len()
+		}
+		a.Length = n
+	}
 	return a.Length
 }
 
 func (a *NXActionConnTrack) MarshalBinary() (data []byte, err error) {
-	data = make([]byte, int(a.Length))
+	data = make([]byte, int(a.Len()))
 	var b []byte
 	n := 0
 
@@ -291,7 +300,8 @@ func (a *NXActionConnTrack) UnmarshalBinary(data []byte) error {
 	a.NXActionHeader = new(NXActionHeader)
 	err := a.NXActionHeader.UnmarshalBinary(data[n:])
 	n += int(a.NXActionHeader.Len())
-	if len(data) < int(a.Len()) {
+	end := int(a.Length) // as announced on the wire; Len() counts the actions decoded so far
+	if len(data) < end {
 		return errors.New("the []byte is too short to unmarshal a full NXActionConnTrack message")
 	}
 	a.Flags = binary.BigEndian.Uint16(data[n:])
@@ -307,7 +317,7 @@ func (a *NXActionConnTrack) UnmarshalBinary(data []byte) error {
 	a.Alg = binary.BigEndian.Uint16(data[n:])
 	n += 2
 
-	for n < int(a.Len()) {
+	for n < end {
 		act, err := DecodeAction(data[n:])
 		if err != nil {
 			return errors.New("failed to decode actions")
